@@ -120,7 +120,7 @@ class Tree:
                     fh.write(data)
                 first[f["ino"]] = p
                 crank[f["ino"]] = len(crank) + 1
-                time.sleep(0.004)          # distinct creation times
+                time.sleep(0.012)          # distinct creation times (the file-system clock is coarse: one tick may be 4 ms)
             f["cr"] = crank[f["ino"]]
             self.paths.append((i, p))
         self.paths.sort()
@@ -144,7 +144,7 @@ class Tree:
         rng.shuffle(inos)
         for n, ino in enumerate(inos):
             os.chmod(seen[ino], 0o644)
-            time.sleep(0.004)
+            time.sleep(0.012)
             for f in self.files:
                 if f["ino"] == ino:
                     f["ct"] = n + 1
